@@ -1,8 +1,8 @@
 (* C12/Property.v — property theorems only.  T is an ARBITRARY class table; trees and objects are
    unbounded.  The live tables enter through c12_live_table (re-checked on every run). *)
 From Coq Require Import String List Bool NArith.
-From Verif Require Import Base.Str Base.Xml Base.ClassTable C12.Model C12.Spec C12.Proofs C12.Live.
-From VerifGen Require Import ClassTables.
+From Verif Require Import Base.Str Base.Xml Base.ClassTable C12.Model C12.Spec C12.Xsd C12.Proofs C12.Live.
+From VerifGen Require Import ClassTables C12Schema.
 Import ListNotations.
 
 (* serialise, read back with any XML reader, parse: the same instance - for every table, every
@@ -31,6 +31,35 @@ Theorem c12_schema_order : forall T o,
   wf_obj_b T o = true -> canonical T o -> ordered_b T (o_cls o) (ser T o) = true.
 Proof. exact ser_ordered. Qed.
 Print Assumptions c12_schema_order.
+
+(* schema order judged by an oracle that is independent of the library: the ranks of the child element names in the
+   content models of the XML Schema files (C12/Xsd.v).  Whenever the order table never contradicts the ranks
+   (xsd_consistent_b, decidable), whatever is in the table's order is rank-monotone at every depth ... *)
+Theorem c12_xsd_order : forall T X t c,
+  xsd_consistent_b T X = true -> ordered_b T c t = true -> xsd_ordered_b T X c t = true.
+Proof. exact xsd_order. Qed.
+Print Assumptions c12_xsd_order.
+
+(* ... the regenerated obligation: no live class's c_child_order contradicts the shipped schema files ... *)
+Theorem c12_live_xsd : xsd_consistent_b live_table live_xsd = true.
+Proof. exact live_xsd_ok. Qed.
+Print Assumptions c12_live_xsd.
+
+(* ... hence every instance of a live class is serialised with its children in the order of the schema files *)
+Theorem c12_live_schema_order : forall o,
+  canonical live_table o -> xsd_ordered_b live_table live_xsd (o_cls o) (ser live_table o) = true.
+Proof.
+  intros o C. apply xsd_order; [exact live_xsd_ok|].
+  apply ser_ordered; [apply canonical_wf_table; [exact live_table_ok|exact C]|exact C].
+Qed.
+Print Assumptions c12_live_schema_order.
+
+(* the oracle has content of its own: a consistent (wf_table) table that writes B before A satisfies its own order
+   (ordered_b) and is caught by the ranks, both on the document and by the table obligation *)
+Theorem c12_xsd_swap_detected :
+  exists T X c t, wf_table T = true /\ ordered_b T c t = true /\ xsd_ordered_b T X c t = false /\ xsd_consistent_b T X = false.
+Proof. exact xsd_swap_detected. Qed.
+Print Assumptions c12_xsd_swap_detected.
 
 (* parsing never drops what the class does not know: unknown children are exactly the extension
    elements (document order), unknown attributes are extension attributes with their value *)
